@@ -522,3 +522,57 @@ func Response(r *t_api.Response, cursorId func(kind string, sortId int64) string
 	}
 	return M{"status": int64(-1)}
 }
+
+// ---------------------------------------------------------------------------------------
+// store records (results of read commands), in the row vocabulary of Store.tla
+// ---------------------------------------------------------------------------------------
+
+func PromiseRecord(r *promise.PromiseRecord) M {
+	created := int64(-1)
+	if r.CreatedOn != nil {
+		created = *r.CreatedOn
+	}
+	return M{"id": r.Id, "state": PromiseState(r.State), "param": M{"headers": jsonMap(r.ParamHeaders), "data": Bytes(r.ParamData)},
+		"value":   M{"headers": jsonMap(r.ValueHeaders), "data": Bytes(r.ValueData)},
+		"timeout": r.Timeout, "ikc": OptKey(r.IdempotencyKeyForCreate), "iku": OptKey(r.IdempotencyKeyForComplete),
+		"tags": jsonMap(r.Tags), "createdOn": created, "completedOn": OptI(r.CompletedOn)}
+}
+
+func TaskRecord(r *task.TaskRecord) M {
+	return M{"id": r.Id, "state": TaskState(r.State), "counter": int64(r.Counter), "attempt": int64(r.Attempt), "pid": OptS(r.ProcessId),
+		"rootId": r.RootPromiseId, "recv": Bytes(r.Recv), "mesg": mesgOf(r.Mesg), "timeout": r.Timeout, "ttl": int64(r.Ttl),
+		"expiresAt": r.ExpiresAt, "createdOn": OptI(r.CreatedOn), "completedOn": OptI(r.CompletedOn)}
+}
+
+func ScheduleRecord(r *schedule.ScheduleRecord) M {
+	return M{"id": r.Id, "desc": r.Description, "cron": r.Cron, "tags": jsonMap(r.Tags), "promiseId": r.PromiseId,
+		"promiseTimeout": r.PromiseTimeout, "promiseParam": M{"headers": jsonMap(r.PromiseParamHeaders), "data": Bytes(r.PromiseParamData)},
+		"promiseTags": jsonMap(r.PromiseTags), "last": OptI(r.LastRunTime), "next": r.NextRunTime, "ikey": OptKey(r.IdempotencyKey),
+		"createdOn": r.CreatedOn}
+}
+
+func LockRecord(r *lock.LockRecord) M {
+	return M{"id": r.ResourceId, "eid": r.ExecutionId, "pid": r.ProcessId, "ttl": r.Ttl, "expiresAt": r.ExpiresAt}
+}
+
+// NoEmptyMaps replaces every empty JSON object by an empty JSON array.  In TLA+ both denote
+// the empty function, but TLC cannot compare an empty *record* read from JSON with the
+// empty tuple <<>> in every position, so traces never contain "{}".
+func NoEmptyMaps(v any) any {
+	switch x := v.(type) {
+	case map[string]any:
+		if len(x) == 0 {
+			return []any{}
+		}
+		for k, e := range x {
+			x[k] = NoEmptyMaps(e)
+		}
+		return x
+	case []any:
+		for i := range x {
+			x[i] = NoEmptyMaps(x[i])
+		}
+		return x
+	}
+	return v
+}
